@@ -166,6 +166,11 @@ pub fn run(ctx: &Ctx, with_reader_side: bool) -> Report {
         // must be the same well-formed file; C09 enumerates such histories exhaustively)
         let mid_finalize: Option<usize> = if i % 5 == 2 && nshapes >= 2 { Some(1 + i % (nshapes - 1)) } else { None };
         let by_path = i % 3 == 1;
+        // C02 only: every 9th cursor-written file goes through ShapeWriter::new (no index destination)
+        let no_index = !with_reader_side && !by_path && i % 9 == 6;
+        if no_index {
+            rep.count("files_written_through_ShapeWriter::new(no index)", 1);
+        }
         // every 7th file: the first shapes through write_shape, the rest through the consuming bulk
         // route write_shapes on the same writer (which then drops it)
         let bulk_tail: Option<usize> = if i % 7 == 4 && nshapes >= 2 && mid_finalize.is_none() { Some(1 + (i / 7) % (nshapes - 1)) } else { None };
@@ -220,7 +225,7 @@ pub fn run(ctx: &Ctx, with_reader_side: bool) -> Report {
                 let mut shp = Cursor::new(Vec::new());
                 let mut shx = Cursor::new(Vec::new());
                 {
-                    let mut w = ShapeWriter::with_shx(&mut shp, &mut shx);
+                    let mut w = if no_index { ShapeWriter::new(&mut shp) } else { ShapeWriter::with_shx(&mut shp, &mut shx) };
                     for (k, s) in shapes.iter().enumerate() {
                         if bulk_tail == Some(k) {
                             break;
@@ -252,7 +257,7 @@ pub fn run(ctx: &Ctx, with_reader_side: bool) -> Report {
             ("shp_file", J::s(format!("{}.{}", name, if upper { "SHP" } else { "shp" }))),
             ("case", J::s(case.clone())),
             ("type", J::Int(if nshapes == 0 { 0 } else { t as i64 })),
-            ("route", J::s(if by_path { "from_path" } else { "cursor" })),
+            ("route", J::s(if by_path { "from_path" } else if no_index { "cursor, ShapeWriter::new (no index)" } else { "cursor" })),
             ("ending", J::s(if finalize { "finalize" } else { "drop" })),
             ("shapes", J::Arr(written.iter().map(|d| d.to_json()).collect())),
         ])
@@ -333,6 +338,10 @@ pub fn run(ctx: &Ctx, with_reader_side: bool) -> Report {
         for k in ["files_with_a_finalize_in_the_middle", "files_ended_through_write_shapes(bulk)_after_write_shape"] {
             let v = rep.counters.get(k).copied().unwrap_or(0);
             rep.guard(k, v, 50);
+        }
+        if !with_reader_side {
+            let v = rep.counters.get("files_written_through_ShapeWriter::new(no index)").copied().unwrap_or(0);
+            rep.guard("files written through ShapeWriter::new (no index)", v, 50);
         }
     }
     rep
